@@ -38,5 +38,6 @@ contract(
     loops={0: Loop(invariant=_INV, decreases="len(text) - index", ghost_begin=["ap_mode(text[:index + 1])", "ap_mode(text)"])},
     canaries=["len(result) == 0"],
     domain=dict(alphabet=["a", ".", '"', "\\", "$", "{", "}", " "], max_len=5, max_len_thorough=6),
-    props=["C12"],
+    # how a document attrpath is cut into names is what every edit-side lookup of an attrpath family rests on
+    props=["C12", "C04", "C05", "C08", "C14", "C19"],
 )
